@@ -145,6 +145,35 @@ def crystal_check(ctx):
             samples.append(json.loads(fh.readline()))
         runs.append({"enumeration": p["tag"], "sets": r["defs"], "distinct_states": r["distinct"],
                      "replayed": r["n_emitted"], "tlc_wall_s": round(r["wall"], 1)})
+    area_res = None
+    if pid == "C02":
+        area_res = trimer_areas(tier)
+        if area_res is None:
+            return 2
+        for f in area_res["first_failures"]:
+            failures.append((f["what"], f.get("state")))
+        states += area_res["tlc"]["distinct"]
+        transitions += area_res["tlc"]["generated"]
+        emitted += area_res["checked"]
+        nontrivial += area_res["checked"]
+    c04 = None
+    if pid == "C04":
+        import opt_checks
+        tr = opt_checks.aux_trace_check("C04", ["C04Frozen"], [], "real", tier, seed)
+        if tr["errors"]:
+            vp.log("TOOL-ERROR: trace validation failed on", tr["errors"])
+            return 2
+        failures.extend(tr["failures"])
+        d = os.path.join(vp.WORK, "C04_hist")
+        os.makedirs(d, exist_ok=True)
+        vp.pvh(["c04-histories", "--out", os.path.join(d, "hist.json"), "--tier", tier, "--seed", str(seed)], timeout=3000)
+        hres = json.load(open(os.path.join(d, "hist.json")))
+        for f in hres["first_failures"]:
+            failures.append((f["what"], f["state"]))
+        c04 = {"optimiser_runs_validated": tr["runs"], "events": tr["events"], "formula": "C04Frozen",
+               "optimised_states_symmetry_residual": {k: v for k, v in hres.items() if k != "first_failures"}}
+        states += tr["states"]
+        emitted += tr["runs"]
     hist = None
     if pid == "C01":
         hist = c01_histories(tier, seed)
@@ -162,6 +191,10 @@ def crystal_check(ctx):
                          "C04": "asserted_on = every state: real cartesian placements (hard and LJ) equal the model crystal, which TLC shows symmetric (invariant Symmetric)",
                          "C15": "asserted_on = every state: real relative placements (hard and LJ) equal the copies of the site, inside [-1/2,1/2)^2"}[pid],
                 "critical_states": crit, "enumerations": runs, "exhaustive": True}
+    if c04:
+        coverage["optimised"] = c04
+    if area_res:
+        coverage["shape_areas"] = {k: v for k, v in area_res.items() if k not in ("first_failures", "tlc")}
     if hist:
         coverage["histories"] = {k: v for k, v in hist.items() if k != "failures"}
     if pid == "C01" and crit["k3"] == 0:
@@ -174,6 +207,32 @@ def crystal_check(ctx):
     vp.log("[%s] %s: %d grid states replayed, %d asserted, critical %s, %.0fs"
            % (pid, TITLE[pid], emitted, nontrivial, crit, time.time() - t0))
     return rc
+
+
+def trimer_areas(tier):
+    """Trimer parameter cases enumerated and classified exactly by TLC (spec/Trimer.tla); area()
+    of the real shape against the exact multiple of pi / the arc-integration oracle; polygons
+    against the shoelace area of their own vertices."""
+    th = tier == "thorough"
+    defs = {"GR": vp.tla_set([1, 2, 4, 5, 6, 8, 10, 12, 15] + ([3, 7, 9, 11, 14, 20] if th else [])),
+            "GD": vp.tla_set([2, 4, 5, 6, 8, 10, 12, 15, 20, 30] + ([1, 3, 7, 9, 11, 14, 17, 25] if th else [])),
+            "GA": vp.tla_set([1, 2, 3, 4, 5, 6, 7, 8])}
+    cfg = "SPECIFICATION Spec\nCONSTANTS\n  Q = 10\n  RSet <- GR\n  DSet <- GD\n  AngleSet <- GA\nINVARIANTS ModelOK Emit\nCHECK_DEADLOCK FALSE\n"
+    r = vp.run_tlc("GenTrimer", cfg, "C02_trimer", workers=4, timeout=1200,
+                   root_text=vp.gen_module("GenTrimer", "MC_Trimer", defs))
+    if r.get("error") or r["violations"]:
+        vp.log("TOOL-ERROR: TLC on Trimer: %s %s" % (r.get("error"), r["violations"]))
+        return None
+    nd = os.path.join(r["dir"], "emitted.ndjson")
+    vp.extract_emitted(r["out"], nd)
+    res = os.path.join(r["dir"], "result.json")
+    vp.pvh(["areas", "--in", nd, "--out", res])
+    out = json.load(open(res))
+    if out["oracle_disagrees_with_tlc"]:
+        vp.log("TOOL-ERROR: the union-area oracle disagrees with TLC's exact areas on %d cases" % out["oracle_disagrees_with_tlc"])
+        return None
+    out["tlc"] = {"distinct": r["distinct"], "generated": r["generated"]}
+    return out
 
 
 def c01_histories(tier, seed):
